@@ -281,6 +281,7 @@ theorem invJ_move (s : St) (m : Move) (h : InvJ s) : InvJ (move s m) := by
     split
     · intro i c hc; simp [clearAll] at hc
     · exact h
+  case failCreate => exact h
 
 theorem invJ_reach (ms : List Move) : InvJ (reach ms) := by
   have : ∀ (s : St), InvJ s → InvJ (runMoves s ms) := by
